@@ -12,6 +12,12 @@ import json
 import os
 import sys
 import time
+import warnings
+import logging
+
+warnings.simplefilter("ignore")
+logging.disable(logging.CRITICAL)
+os.environ.setdefault("PYTHONWARNINGS", "ignore")
 
 HERE = os.path.dirname(os.path.abspath(__file__))
 sys.path.insert(0, HERE)
@@ -161,12 +167,20 @@ def main():
     n_nontrivial, distinct = 0, set()
     for i, (case, obs, sig) in enumerate(results):
         if sig:
-            f = common.match_finding(findings, sig)
-            if f:
-                known_hit.setdefault(f["id"], f)
+            # an oracle may report several independent failures of one case: the case is a
+            # violation when any of them is not a listed finding
+            sigs = sig if isinstance(sig, list) else [sig]
+            unlisted = None
+            for sg in sigs:
+                f = common.match_finding(findings, sg)
+                if f:
+                    known_hit.setdefault(f["id"], f)
+                elif unlisted is None:
+                    unlisted = sg
+            if unlisted is None:
                 ctx.count("known_finding_cases")
             else:
-                violations.append((case, obs, sig))
+                violations.append((case, obs, unlisted))
             continue
         if i in replies:
             try:
@@ -288,9 +302,12 @@ def replay(mod, prop, path, findings):
         print("case:", json.dumps(case)[:600])
         print("observed:", json.dumps(obs, default=str)[:600])
         if sig:
-            f = common.match_finding(findings, sig)
-            print("property FAILS on the implementation:", json.dumps(sig)[:600], "(known finding %s)" % f["id"] if f else "")
-            bad += 1
+            for sg in (sig if isinstance(sig, list) else [sig]):
+                f = common.match_finding(findings, sg)
+                print("property FAILS on the implementation:", json.dumps(sg)[:600],
+                      "(known finding %s)" % f["id"] if f else "")
+                if not f:
+                    bad += 1
         else:
             print("property holds on the implementation for this case")
     if bad:
